@@ -132,6 +132,19 @@ func discharge1(o *Obligation, dir string, timeoutS int, cross bool) {
 		}
 	}
 	best := first
+	if !decided(first.result) && len(o.Extra) > 0 {
+		// ground variant: every quantified assumption is dropped, only its explicit
+		// instances (o.Extra) are kept. Fewer assumptions: an unsat answer is a proof.
+		file3 := strings.TrimSuffix(file, ".smt2") + ".g.smt2"
+		os.WriteFile(file3, []byte(o.groundScript()), 0o644)
+		g := runSolver(solvers[0], file3, timeoutS)
+		total += g.secs
+		if g.result == "unsat" {
+			g.solver = g.solver + " (ground instances)"
+			o.Result, o.Solver, o.Time, o.Model = g.result, g.solver, total, g.output
+			return
+		}
+	}
 	if !decided(first.result) {
 		// stage 2: race all three with the full limit
 		ch := make(chan solveOut, 2*len(solvers))
